@@ -563,6 +563,8 @@ def perturb(rng, v):
         return rng.choice([v + "x", v[:-1], v.upper(), "a" + v, v[1:]]) if v else "x"
     if isinstance(v, dict):
         if "$f" in v and len(v) == 1:
+            if abs(v["$f"]) >= 2 ** 50:          # m/1024 must stay an exact double: only exact moves up there
+                return {"$f": v["$f"] * 2 if rng.random() < 0.5 else v["$f"] // 2}
             return {"$f": v["$f"] + rng.choice([-1, 1, 1024])}
         if "$t" in v and len(v) == 1:
             return {"$t": v["$t"] + rng.choice([-1, 1, 1000, -1000, 500000])}
@@ -1730,7 +1732,7 @@ def check(run):
                                      {"differences": diff}))
     # cases
     rng = run.rng
-    n_pops = 480 if thorough else 110
+    n_pops = 480 if thorough else 96
     n_queries = 60 if thorough else 28
     sizes = [0, 1, 2, 3, 5, 8, 13, 20, 30, 40]
     cases = []
